@@ -28,12 +28,14 @@
                     guards are already open (and the budget checks in front of it pass).
      C31_nested     20 nested calibrated guards succeed and 21 fail with SoftforkStackDepth under
                     LIMIT_SOFTFORK, both succeed without it (computation on ChiaDialect's model).
+     C31_bigstep_guard  the guard clause of the big-step evaluator: nil, cost + declared.
      C31_frame      the frame lemma used for all this (a framed run = the run of the upper part,
                     then the run of the frame with the result pushed).
    Not proved here: the allocator-counter clause. The tree-store machine has no allocator; "a
    full checkpoint restore resets the three counts" is proved on the allocator model (C12) and
    the composed statement is observed on the implementation (lib/props/c31.py). *)
-From Clvm Require Import Model.Machine Model.Dialect Proofs.MachineFrame Proofs.MachineGuard.
+From Clvm Require Import Model.Machine Model.Dialect Model.BigStep Proofs.MachineFrame Proofs.MachineGuard
+  Proofs.BigStepEquiv.
 Open Scope N_scope.
 
 Theorem C31_guard : forall d M cost st vs es rest gs declared ext prg env,
@@ -60,6 +62,20 @@ Theorem C31_depth : forall d M cost st vs es rest gs declared ext prg env,
    (f_limit_softfork (d_flags d) = true /\ (20 <= length gs)%nat /\
     cost <= effective_max st M /\ declared <= effective_max st M - cost /\ declared <> 0)).
 Proof. exact guard_depth. Qed.
+
+(* the same fact read off the big-step evaluator of Model/BigStep.v (equivalent to the machine:
+   C11_bigstep): for every evaluator [ev] used for the body, a guard evaluation that succeeds
+   yields nil, and its cost is cost-before + declared unless the operator set is cost-exempt *)
+Theorem C31_bigstep_guard : forall d M ev gs cost args c v,
+  guard_big d M ev gs cost args = Ok (c, v) ->
+  v = nil_s /\
+  exists fa declared, first args = Ok fa /\
+    uint_atom 8 (f_canonical_ints (d_flags d)) fa = Ok declared /\
+    (match parse_softfork_arguments d args with
+     | Ok (ext, _, _) => ext <> OsPreHardFork
+     | Err _ => True
+     end -> c = cost + declared).
+Proof. exact guard_big_spec. Qed.
 
 (* the frame lemma: [upper gb u] = u is a consistent upper part over the base guard stack gb
    (what eval_pair builds from nothing is one: C31_frame_init); running it under any frame F is
@@ -127,6 +143,7 @@ Proof. intros P. vm_compute. repeat split. Qed.
 Print Assumptions C31_guard.
 Print Assumptions C31_guard_run.
 Print Assumptions C31_depth.
+Print Assumptions C31_bigstep_guard.
 Print Assumptions C31_frame.
 Print Assumptions C31_frame_final.
 Print Assumptions C31_frame_init.
